@@ -10,4 +10,8 @@ var Checks = map[string]func(*core.Env){
 	"C01": C01,
 	"C03": C03,
 	"C12": C12,
+	"C04": C04,
+	"C09": C09,
+	"C11": C11,
+	"C17": C17,
 }
